@@ -32,6 +32,10 @@ def gen(rng):
             st['value'] = v
         pos = rng.randrange(1, len(hist) + 1)
         hist[pos:pos] = [st, dict(op='check', h=0)]
+    if rng.random() < 0.15:
+        # a map handed out by the API (astype, scalar operator, bit-packing, field copy) reads and grows like any
+        # other, whatever happens to the map it came from afterwards
+        hist += gens2.cross_check_derived(rng, mk, 0, 7)
     return hist
 
 
